@@ -4,7 +4,10 @@ import Rivaas.Spec.Compose
 /-
 Driver for C02. Case line (see harness/c02/main.go):
 
-  <id> <check> <script> <target> <path> <ver> <behaviours> => <probe> <trace> <status> <body> <escaped>
+  <id> <check> <compiled> <script> <target> <path> <ver> <behaviours> => <probe> <trace> <status> <body> <escaped>
+
+  compiled   = router.WithRouteCompilation: which serve path runs the chain; the model says it makes no
+               difference (C11's subject), so the token is read and ignored — a difference shows as MI=0
 
   script     = n op…            op = NR | U r hs | G r seg hs | SG g seg hs | GU g hs | V r ver | VG v seg hs
                                      | R owner seg hs | M parent sub seg inherit hs | W r
@@ -81,6 +84,7 @@ structure Case where
 
 def pCase : P Case := do
   let check ← bool
+  let _compiled ← bool
   let script ← list pOp
   let mounts ← list nat
   let route ← nat
